@@ -189,6 +189,17 @@ func main() {
 		}
 	}
 	_ = loadAndRules
+	// checker self-consistency: an attribution outside a rule's registration means that
+	// property's own check would not run the rule — a bug of the checker, reported loudly
+	if len(core.UndeclaredAttr) > 0 {
+		var ks []string
+		for k := range core.UndeclaredAttr {
+			ks = append(ks, k)
+		}
+		sort.Strings(ks)
+		fmt.Fprintf(os.Stderr, "mocverif: internal error: obligations attributed to properties their rule is not registered for: %v\n", ks)
+		os.Exit(2)
+	}
 	os.Exit(exit)
 }
 
